@@ -203,7 +203,14 @@ def histories(draw, with_builtins, maxlen=10):
             steps.append(["read2", name])
         elif not is_mod:
             # names the module never assigns: only builtins mutations (C26 guard)
-            steps.append(draw(st.sampled_from([["bset", name, v], ["bset", name, v], ["bdel", name]])))
+            # ... and, since the cache_builtins=False build looks these names up at run time (module dict, then
+            # builtins), shadowing / un-shadowing them through the module namespace from outside
+            # (only for the name that is NOT a builtin known at compile time: a known builtin such as `abs` is
+            # bound to the builtins module by documented design and is not looked up in the module dict)
+            opts = [["bset", name, v], ["bset", name, v], ["bdel", name]]
+            if name == "zz_new":
+                opts += [["setattr", name, "m" + v], ["dictset", name, "m" + v], ["delattr", name], ["dictpop", name]]
+            steps.append(draw(st.sampled_from(opts)))
         elif r == 9:
             steps.append(["setattr", name, v])
         elif r == 10:
